@@ -10,5 +10,6 @@ import (
 	_ "verifharness/internal/props/c13"
 	_ "verifharness/internal/props/c15"
 	_ "verifharness/internal/props/c16"
+	_ "verifharness/internal/props/c17"
 	_ "verifharness/internal/props/c18"
 )
